@@ -207,3 +207,83 @@ def run(rec, S, which=("Resolver",)):
                         rec.finding(R, "F2.visit/%s/%s/%s.%s" % (who, name, T, fld), "%s::%s takes an ast::%s but never touches its field `%s` (%s), which can contain identifier uses" % (who, name, T, fld, flds[fld]), loc="%s:%d" % (rel, f["line"]), fn=name)
     rec.floor(R, "enum traversal sites", nsites, 10)
     rec.floor(R, "expression-bearing struct fields", nfields, 30)
+
+
+# ---------------------------------------------------------------------------
+# F2.order — the two walkers agree on when a construct's variable comes into scope
+
+def _events(f, fns):
+    """ordered ('visit'|'declare', field-or-const) events of a walker method over its AST parameter"""
+    prm = None
+    for a in f.get("args") or []:
+        m = re.match(r"&\s*(?:'\w+\s+)?(?:mut\s+)?(?:ast\s*::\s*)?(\w+)\b", a.get("ty") or "")
+        if m and a.get("name") != "self":
+            prm = a["name"]
+            break
+    if prm is None:
+        return None, []
+    evs = []
+    order = [0]
+
+    def visit(x):
+        if isinstance(x, dict):
+            if x.get("e") == "mcall" and synq.src(x.get("recv")) in ("self", "self_"):
+                argsrc = [synq.src(a) for a in (x.get("args") or [])]
+                flds = []
+                for s_ in argsrc:
+                    flds += re.findall(r"\b%s\s*\.\s*(\w+)" % re.escape(prm), s_)
+                consts = []
+                for s_ in argsrc:
+                    consts += re.findall(r"\b([A-Z][A-Z0-9_]{2,})\b", s_)
+                if x["m"] in ("declare_variable", "declare_local_variable", "declare_module_variable"):
+                    # the resolver wraps hidden names in a token built from the constant
+                    for t_ in (flds or consts):
+                        evs.append(("declare", t_, x["line"]))
+                    if not flds and not consts:
+                        for a in (x.get("args") or []):
+                            s_ = synq.src(a)
+                            m2 = re.match(r"&?\s*(\w+)$", s_.strip())
+                            if m2:
+                                evs.append(("declare", "$" + m2.group(1), x["line"]))
+                elif x["m"] in fns and x["m"] not in ("emit_byte", "scope", "loop_scope", "define_variable", "error") and flds:
+                    for t_ in flds:
+                        evs.append(("visit", t_, x["line"]))
+            for k, v in x.items():
+                visit(v)
+        elif isinstance(x, list):
+            for v in x:
+                visit(v)
+    visit(f.get("body"))
+    return prm, evs
+
+
+def run_order(rec, S):
+    R = rec.rule("F2.order", "for every construct handled by both the resolver and the compiler, a child expression is visited on the same side of the construct's own variable declarations in both walkers: the resolver decides what a name in that expression refers to, the compiler finds its slot; if the resolver has already declared the construct's variable and the compiler has not, the name resolves to a variable the compiler cannot find (`fn f() { for x in x {} }`)")
+    rf = walker_fns(S, RESOLVER, "Resolver")
+    cf = walker_fns(S, COMPILER, "Compiler")
+    n = 0
+    for name in sorted(set(rf) & set(cf)):
+        p1, e1 = _events(rf[name], rf)
+        p2, e2 = _events(cf[name], cf)
+        if not e1 or not e2:
+            continue
+
+        def first(evs, kind, what):
+            for i, e in enumerate(evs):
+                if e[0] == kind and e[1] == what:
+                    return i
+            return None
+        visits = set(e[1] for e in e1 if e[0] == "visit") & set(e[1] for e in e2 if e[0] == "visit")
+        decls = set(e[1] for e in e1 if e[0] == "declare" and not e[1].startswith("$")) & set(e[1] for e in e2 if e[0] == "declare" and not e[1].startswith("$"))
+        for v in sorted(visits):
+            for d in sorted(decls):
+                if v == d:
+                    continue
+                a1, b1 = first(e1, "visit", v), first(e1, "declare", d)
+                a2, b2 = first(e2, "visit", v), first(e2, "declare", d)
+                n += 1
+                ok = (a1 < b1) == (a2 < b2)
+                rec.inst(R, "%s: visit .%s vs declare %s" % (name, v, d), ok=ok, loc="%s:%d" % (RESOLVER, rf[name]["line"]))
+                if not ok:
+                    rec.finding(R, "F2.order/%s/%s/%s" % (name, v, d), "Resolver::%s %s `.%s` %s declaring `%s`, Compiler::%s does the opposite: a use of that name inside `.%s` is bound by the resolver to a variable that does not exist yet for the compiler (panic 'Symbol .. not found') or to a different variable than the one in scope" % (name, "resolves", v, "after" if a1 > b1 else "before", d, name, v), loc="%s:%d" % (RESOLVER, rf[name]["line"]), fn=name)
+    rec.floor(R, "visit/declare pairs compared", n, 2)
